@@ -48,3 +48,12 @@ where
     old_range.end -= n;
     common_suffix_len(old, old_range.clone(), new, new_range.clone())
 }
+
+fn a11_pair(n: usize, m: usize) -> usize {
+    n + m
+}
+
+/// control A11: the same private helper gets (old, new) at one call site and (old, old) at the other
+pub fn a11_bad_pattern(old_range: Range<usize>, new_range: Range<usize>) -> usize {
+    a11_pair(old_range.len(), new_range.len()) + a11_pair(old_range.len(), old_range.len())
+}
